@@ -33,6 +33,7 @@ TARGETS = {
     "script": ["Script.raw_serialize", "Script.serialize"],
     "bip39": ["correct_entropy_bits_value", "checksum_length", "mnemonic_sentence_length", "mnemonic_from_entropy"],
     "bip85": ["BIP85DeterministicEntropy.byte_count_from_word_count"],
+    "ripemd": ["fi", "rol", "compress", "ripemd160"],
     "__main__": ["value_in_interval", "address_index", "account_index", "extended_key", "mnemonic", "bip39_seed", "entropy_hex"],
 }
 # external primitives: name -> (params, expected source of the body).  Their semantics is a parameter of the theorems.
@@ -41,7 +42,7 @@ EXTERNS = {
     "helper.sha256": (["s"], "return hashlib.sha256(s).digest()"),
     "helper.hash160": (["s"], "return ripemd160(hashlib.sha256(s).digest())"),
 }
-EXN = {"IndexError", "TypeError", "ValueError", "OverflowError", "ZeroDivisionError", "RuntimeError", "KeyError", "ArgumentError"}
+EXN = {"IndexError", "TypeError", "ValueError", "OverflowError", "ZeroDivisionError", "RuntimeError", "KeyError", "ArgumentError", "AssertionError"}
 BINOPS = {ast.Add: "Add", ast.Sub: "Sub", ast.Mult: "Mul", ast.FloorDiv: "FloorDiv", ast.Mod: "Mod",
           ast.LShift: "LShift", ast.RShift: "RShift", ast.BitAnd: "BitAnd", ast.BitOr: "BitOr",
           ast.BitXor: "BitXor", ast.Pow: "Pow"}
@@ -158,8 +159,8 @@ class FunTrans:
         self.collect_locals(fn.body)
         for node in ast.walk(fn):
             if isinstance(node, (ast.Global, ast.Nonlocal, ast.Yield, ast.YieldFrom, ast.Lambda, ast.Try, ast.With,
-                                 ast.FunctionDef, ast.ClassDef, ast.Assert, ast.Delete, ast.Await, ast.NamedExpr,
-                                 ast.Starred, ast.Continue)) and node is not fn:
+                                 ast.FunctionDef, ast.ClassDef, ast.Delete, ast.Await, ast.NamedExpr,
+                                 ast.Continue)) and node is not fn:
                 raise Untranslatable(type(node).__name__)
 
     # ---- locals
@@ -391,6 +392,10 @@ class FunTrans:
                 return "(EBuiltin BChunks (ECons (EConst (VInt %d)) %s))" % (pat.right.value, self.exprs([e.args[1]], scope))
             raise Untranslatable("re.findall with a pattern other than '.' * K")
         qual = self.resolve_callee(f)
+        if qual is not None and e.args and isinstance(e.args[0], ast.Starred) and not e.keywords \
+                and not any(isinstance(a, ast.Starred) for a in e.args[1:]) and self.world.known(qual) and qual not in EXTERNS:
+            self.calls.append(qual)
+            return "(ECallStar %s %s %s)" % (cstr(qual), self.expr(e.args[0].value, scope), self.exprs(e.args[1:], scope))
         if qual is not None and not (isinstance(f, ast.Name) and self.is_local(f.id, scope)):
             if not self.world.known(qual):
                 raise Untranslatable("call of %s (not translated, not an external primitive)" % qual)
@@ -488,6 +493,10 @@ class FunTrans:
                 for a in list(x.args) + [k.value for k in x.keywords]:          # message: only total formatting is dropped
                     self.check_message(a)
             return "(SRaise %s)" % name
+        if isinstance(st, ast.Assert):
+            if isinstance(st.test, ast.Constant) and st.test.value is False and st.msg is None:
+                return "(SRaise AssertionError)"          # `assert False`: unreachable-branch marker (python -O is not modelled)
+            raise Untranslatable("assert with a condition")
         if isinstance(st, ast.Break):
             return "SBreak"
         if isinstance(st, ast.Pass):
